@@ -211,6 +211,15 @@ func C06CLI(r *simkit.Run) {
 			if res.Exit != 0 && !valid && what != "migrate-hash" && !strings.Contains(res.Stderr+res.Stdout, "checksum") && !strings.Contains(res.Stderr+res.Stdout, "atlas.sum") {
 				r.Probe("writer-failed-on-tampered-dir-other-error")
 			}
+			// Every command that consumes the directory validates it first: only `migrate hash`, whose
+			// purpose that is, may turn a tampered directory into a valid one.
+			if res.Exit == 0 && !valid && what != "migrate-hash" {
+				r.Fail(propC06, "integrity", "tampered-directory-accepted/"+what, "the directory did not validate, yet %s accepted it (and re-hashed it)", what)
+				return
+			}
+			if !valid && what != "migrate-hash" {
+				r.Probe("writer-refuses-tampered-directory")
+			}
 			check(what, res.Exit == 0, false)
 			continue
 		}
@@ -218,7 +227,13 @@ func C06CLI(r *simkit.Run) {
 		pick := func() string { return names[t.Draw("file", len(names))] }
 		must := true
 		var what string
-		switch t.Weighted("tamper", 4, 2, 2, 2, 2, 3) {
+		switch t.Weighted("tamper", 4, 2, 2, 2, 2, 3, 2) {
+		case 6: // the sum file disappears (with the files still there, that is a tampered directory)
+			if _, ok := m["atlas.sum"]; !ok {
+				continue
+			}
+			os.Remove(filepath.Join(w.Mig, "atlas.sum"))
+			what = "remove-sum-file"
 		case 0:
 			n := pick()
 			b := append([]byte(nil), m[n]...)
